@@ -9,6 +9,21 @@ checks = {
  'C02': dict(level='exploration', tech='runtime monitoring: offline per-GPU-group conservation checker over recorded bind events and pod labels',
    text='Held on N generated histories biased to fractional / gpu-memory / multi-fraction pods: per GPU group the shares of all sharers (running, terminating, binding, bound this cycle) stay within the device, whole+shared devices stay within the node GPU count, N fractional devices are N distinct groups, a group lives on one node.',
    note='One accounting unit (1/deviceMemory) of slack per sharer; device identity of whole-GPU pods is not observable, checked as counts.', ref='4/C02'),
+ 'C03': dict(level='exploration', tech='runtime monitoring: offline min-or-none checker over recorded bind/evict/nomination events grouped by pod group and sub-group',
+   text='Held on N generated histories biased to gangs, hierarchical sub-groups and elastic workloads: every pod set that received binds ends at or above its minimum, a fresh gang start reaches the minimum of every pod set, partial binds are never mixed with nominations below the minimum, and evictions either keep every pod set at its minimum or remove all active pods.',
+   note='Evaluated only on cases without injected API write failures (as the property states). Known finding (open): victims that are re-placed elsewhere are moved individually, leaving the rest of the gang running.', ref='4/C03'),
+ 'C04': dict(level='exploration', tech='runtime monitoring: offline re-evaluation of hard placement constraints with an independent matcher over every recorded bind and nomination',
+   text='Held on N generated histories with node labels/taints/conditions, selectors, required node and inter-pod (anti-)affinity, node pools and required topology levels on groups and nested sub-groups: every bind/nomination re-checked by the harness own predicates against the API objects, incl. pods bound earlier in the same cycle.',
+   note='Terminating, same-cycle-evicted and merely nominated pods are don\'t-care for inter-pod terms; topology labels demanded for the required level and coarser only.', ref='4/C04'),
+ 'C06': dict(level='exploration', tech='runtime monitoring: offline victim-eligibility checker over recorded Evict(EvictionMetadata) and placement events',
+   text='Held on N generated histories with preemptible/non-preemptible mixes, priorities around the boundary, queue trees with min-runtimes (queue and LCA resolution), elastic victims: no non-preemptible or protected victim, preempt victims same queue and strictly lower priority, reclaim victims other queue, every eviction accompanied by a placement of its preemptor in the same action, consolidation victims re-nominated elsewhere.',
+   note='Min-runtime verdicts only when the start time is > 5 min from the boundary. Known finding (open): consolidation ignores min-runtime.', ref='4/C06'),
+ 'C08': dict(level='exploration', tech='runtime monitoring: online running-sum checker of per-queue allocation over the recorded event order',
+   text='Held on N generated histories with limits/quotas incl. 0, fractional and ancestor-only: after every bind/nomination the allocation (recomputed from pod specs, rolled up the queue tree) of the queue and each ancestor stays within its limit, and the non-preemptible part within deserved quota.',
+   note='Cycles with a failed Bind/Evict call are not judged; terminating pods are not charged (weaker than the scheduler, hence sound); flattened queue tree when full-hierarchy-fairness is off.', ref='4/C08'),
+ 'C16': dict(level='exploration', tech='runtime monitoring: offline pairwise order checker over allocate-action placements of generator-made clone workloads',
+   text='Held on N generated clusters containing clone workloads (same template, gang shape, preemptibility, leaf queue) with shuffled priorities and creation times among many competing workloads: allocate never placed a lower-priority or younger clone while leaving a higher-priority or older one unplaced.',
+   note='Clones carry no inter-pod affinity and no topology constraint; only clones whose pods are all pending are compared.', ref='4/C16'),
 }
 not_applicable = {}
 props=[json.loads(l)['id'] for l in open(V+'/properties.jsonl')]
